@@ -10,7 +10,7 @@
    "seen" = map fst (firstn (length (w_reqs m)) script) = the server's answers to the received requests.
    MaxRetries semantics (backoff.go:53): > 0 bounds the number of retries, 0 means NO limit, < 0 no retry. *)
 From Coq Require Import Strings.String.
-From Coq Require Import ZArith List Bool.
+From Coq Require Import ZArith List Bool Permutation.
 From Verif Require Import Base.Str Model.RemoteWrite Proofs.C20_proofs.
 Import ListNotations.
 Open Scope string_scope.
@@ -137,6 +137,24 @@ Theorem spec_write_ok_meaning :
     (0 < c_max_retries cfg -> Z.of_nat (length (ob_reqs ob)) <= c_max_retries cfg + 1) /\
     (ob_err ob = WNil -> exists last tl, rev seen = last :: tl /\ is_2xx last = true).
 Proof. exact C20_proofs.spec_write_ok_meaning_lemma. Qed.
+
+(* ---------- client: options ---------- *)
+
+(* NewAPI's configuration depends only on the SET of options, not on the order they are passed in (as long as
+   WithAPIBackoff is not given twice with different configurations) ... *)
+Theorem options_order_insensitive :
+  forall l l', Permutation l l' -> one_backoff l -> apply_options l = apply_options l'.
+Proof. exact C20_proofs.options_order_insensitive_lemma. Qed.
+
+(* ... in particular disabling retry-on-429 survives a backoff option given before or after it *)
+Theorem options_meaning :
+  forall mn mx mr,
+  apply_options [] = default_cfg /\
+  apply_options [ONoRetry429] = mkCfg (c_min default_cfg) (c_max default_cfg) (c_max_retries default_cfg) false /\
+  apply_options [OBackoff mn mx mr] = mkCfg mn mx mr true /\
+  apply_options [ONoRetry429; OBackoff mn mx mr] = mkCfg mn mx mr false /\
+  apply_options [OBackoff mn mx mr; ONoRetry429] = mkCfg mn mx mr false.
+Proof. exact C20_proofs.options_meaning_lemma. Qed.
 
 (* ---------- client: pooled buffers ---------- *)
 
